@@ -135,6 +135,14 @@ impl SeekTy {
 
 /// A block-mode object with a fixed direction (`BlockModeEncrypt` or `BlockModeDecrypt`).
 pub trait BlockMode {
+    /// the adapter itself, for `clone_from_obj`
+    /// identity given by the recording proxy (0 for a bare adapter)
+    fn obj_id(&self) -> usize {
+        0
+    }
+    fn as_any(&self) -> &dyn std::any::Any;
+    /// `Clone::clone_from(self, src)`; false if `src` is not the same concrete type
+    fn clone_from_obj(&mut self, src: &dyn BlockMode) -> bool;
     /// `*_block`, `*_block_b2b`, `*_block_inout` on one mode block
     fn one(&mut self, k: Kind, inp: &[u8], out: &mut [u8]);
     /// `*_blocks`, `*_blocks_b2b`, `*_blocks_inout`; lengths are multiples of the mode block size.
@@ -171,6 +179,13 @@ pub struct BlockModeDesc {
 
 /// `StreamCipherCore` (+ `StreamCipherSeekCore`, `IvState`) object.
 pub trait Core {
+    /// identity given by the recording proxy (0 for a bare adapter)
+    fn obj_id(&self) -> usize {
+        0
+    }
+    fn as_any(&self) -> &dyn std::any::Any;
+    /// `Clone::clone_from(self, src)`; false if the type is not `Clone` or `src` is another type
+    fn clone_from_obj(&mut self, src: &dyn Core) -> bool;
     fn remaining_blocks(&self) -> Option<usize>;
     /// InPlace = `apply_keystream_blocks`, B2b/InOut = `apply_keystream_blocks_inout` (Err when `InOutBuf::new` refuses)
     fn apply_blocks(&mut self, k: Kind, inp: &[u8], out: &mut [u8]) -> R;
@@ -209,6 +224,12 @@ pub struct CoreDesc {
 
 /// Byte-level stream cipher (`StreamCipherCoreWrapper<..>`): `StreamCipher` + `StreamCipherSeek`.
 pub trait Stream {
+    /// identity given by the recording proxy (0 for a bare adapter)
+    fn obj_id(&self) -> usize {
+        0
+    }
+    fn as_any(&self) -> &dyn std::any::Any;
+    fn clone_from_obj(&mut self, src: &dyn Stream) -> bool;
     /// InPlace = `try_apply_keystream`, B2b = `apply_keystream_b2b`, InOut = `try_apply_keystream_inout`
     fn apply(&mut self, k: Kind, inp: &[u8], out: &mut [u8]) -> R;
     /// `try_seek::<T>(p)`; `None` if the type is not seekable or `p` is not representable in `T`
@@ -225,6 +246,12 @@ pub trait Stream {
 
 /// Buffered CFB (`BufEncryptor` / `BufDecryptor`).
 pub trait BufCfb {
+    /// identity given by the recording proxy (0 for a bare adapter)
+    fn obj_id(&self) -> usize {
+        0
+    }
+    fn as_any(&self) -> &dyn std::any::Any;
+    fn clone_from_obj(&mut self, src: &dyn BufCfb) -> bool;
     fn process(&mut self, data: &mut [u8]);
     fn get_state(&self) -> (Vec<u8>, usize);
     fn dup(&self) -> Box<dyn BufCfb>;
